@@ -175,11 +175,17 @@ Fixpoint lis (is_module : bool) (s : lstmt) {struct s} : list lstmt :=
   then expanded ++ [LEmit E_after_module_stmt n (Some (XLoadSaved n)) None]
   else expanded.
 
-Definition linstr_module (body : list lstmt) : list lstmt :=
+Definition linstr_module0 (body : list lstmt) : list lstmt :=
   (if sub c E_init_module then [LEmit E_init_module 0 None None] else [])
   ++ flat_map (lis true) body
   ++ (if sub c E_exit_module then [LEmit E_exit_module 0 None None] else []).
 End Instr.
+
+(* a module docstring stays as written and first (as in FragSem.tdoc / trest) *)
+Definition is_doc_l (s : lstmt) : bool := match s with LExpr _ (XConst _ (SStr _)) => true | _ => false end.
+Definition ldoc (body : list lstmt) : list lstmt := match body with d :: _ => if is_doc_l d then [d] else [] | [] => [] end.
+Definition lrest (body : list lstmt) : list lstmt := match body with d :: rest => if is_doc_l d then rest else body | [] => [] end.
+Definition linstr_module (c : rcfg) (ge : bool) (body : list lstmt) : list lstmt := ldoc body ++ linstr_module0 c ge (lrest body).
 
 (* ---------------------------------------------------------------- evaluation *)
 Inductive lexc : Set := LX (e : exc) | LFuel | LBrk | LCnt.     (* a Python exception; a loop ran out of fuel; `break` / `continue` on their way to the loop *)
@@ -374,8 +380,9 @@ Definition lref_l (quiet is_module : bool) := fix ref_l (u : list lstmt) (r : en
   | x :: u' => rseq (lref_s quiet is_module x r pre) (ref_l u') pre
   end.
 
-Definition lref_module (body : list lstmt) (r : env) : rlres :=
+Definition lref_module0 (body : list lstmt) (r : env) : rlres :=
   let a := lref_l false true body r [(E_init_module, 0, Some VNone)] in
   {| rl_exc := rl_exc a; rl_env := rl_env a;
      rl_log := (E_init_module, 0, Some VNone) :: rl_log a ++ match rl_exc a with None => [(E_exit_module, 0, Some VNone)] | Some _ => [] end |}.
+Definition lref_module (body : list lstmt) (r : env) : rlres := lref_module0 (lrest body) r.
 End Sem.
